@@ -83,7 +83,7 @@ impl Check for C07 {
             .map(|_| {
                 let h = g.range(0, nh - 1);
                 let port = if g.chance(50) { *g.pick(&[0u64, 1, 80, 255, 256, 443, 65_535]) } else { g.range(0, 65_535) };
-                let via = *g.pick(&["direct", "socks5", "socks5", "http", "http-plain", "udp", "raw", "burst"]);
+                let via = *g.pick(&["direct", "socks5", "socks5", "http", "http-plain", "udp", "raw", "burst", "raw-udp"]);
                 // burst: 2-3 requests for the same host with different ports started at the same instant
                 let more: Vec<u64> = (0..g.range(1, 2)).map(|_| g.range(1, 65_535)).collect();
                 json!({"host": h, "port": port, "more_ports": more, "via": via, "gap_ms": *g.pick(&[0u64, 0, 1_000, 59_000, 61_000, 150_000]), "pieces": g.range(1, 6), "pause_ms": if g.chance(20) { *g.pick(&[6_000u64, 20_000]) } else { 0 }})
@@ -138,7 +138,7 @@ impl Check for C07 {
                 let is_name = hosts[hi]["addrs"].is_array();
                 let mut via = r["via"].as_str().unwrap_or("direct");
                 if via == "udp" && is_name {
-                    via = "socks5"; // create_udp_proxy takes a socket address only
+                    via = "raw-udp"; // create_udp_proxy takes a socket address only; the server's initial-request parser also takes names
                 }
                 if is_name {
                     name_reqs += 1;
@@ -243,6 +243,7 @@ impl Check for C07 {
                             Err(_) => Err("no completion within 120 s".into()),
                         }
                     }
+                    "raw-udp" => raw_udp_request(&host, port, r["pieces"].as_u64().unwrap_or(1) as usize, ri, r["pause_ms"].as_u64().unwrap_or(0)).await,
                     _ => raw_request(&host, port, r["pieces"].as_u64().unwrap_or(1) as usize, ri, r["pause_ms"].as_u64().unwrap_or(0)).await,
                 };
                 if let Err(e) = res {
@@ -250,7 +251,22 @@ impl Check for C07 {
                     break;
                 }
                 // which destination was dialled?
-                if via == "udp" {
+                if via == "raw-udp" {
+                    // the server's parser of the association request: all three address types, names through the cache
+                    let sent: Vec<SocketAddr> = world::with(|w| w.net.udp_log[before_udp..].iter().map(|u| u.to).collect()).unwrap_or_default();
+                    let good = sent.len() == 1 && sent[0].port() == port && allowed.contains(&sent[0].ip());
+                    if !good {
+                        let why = if sent.len() != 1 {
+                            "datagram-count"
+                        } else if sent[0].port() != port {
+                            if repeats > 0 { "port-after-earlier-request" } else { "port" }
+                        } else {
+                            "address"
+                        };
+                        out.viol("wrong-destination", format!("wrong-destination:{}:{}", sig_kind, why), format!("request #{}: UDP association (raw peer) for {}:{} (addresses {:?}) — datagrams left for {:?}", ri, host, port, allowed, sent));
+                        break;
+                    }
+                } else if via == "udp" {
                     let sent: Vec<SocketAddr> = world::with(|w| w.net.udp_log[before_udp..].iter().filter(|u| Some(u.to) != udp_local && Some(u.to) != udp_app).map(|u| u.to).collect()).unwrap_or_default();
                     let want = SocketAddr::new(allowed[0], port);
                     if sent.len() != 1 || sent[0] != want {
@@ -305,7 +321,7 @@ impl Check for C07 {
         out
     }
     fn rule(&self) -> &'static str {
-        "one case = a history of 1-12 sequential requests over 1-4 hosts (IPv4 incl. 0.0.0.0/255.255.255.255/high octets, IPv6 incl. ::/mapped/full length, names of length 1,2,63,64,253,254,255 and random with 1-3 table addresses) x ports {0,1,80,255,256,443,65535,random} issued through create_proxy_stream, the SOCKS5 front-end, HTTP CONNECT, a plain HTTP request (origin or absolute form, with header lines that merely look like a Host header placed before the real one), a UDP association, or a raw TLS client that spreads the destination over 1-6 PSH frames, with virtual gaps {0,1s,59s,61s,150s} (inside and beyond the 60 s cache lifetime), default or tiny-size padding scheme; oracle = the simulated network's connect / datagram log after each request; every case is non-trivial; distinct = distinct (plan hash, poll-order fingerprint)"
+        "one case = a history of 1-12 sequential requests over 1-4 hosts (IPv4 incl. 0.0.0.0/255.255.255.255/high octets, IPv6 incl. ::/mapped/full length, names of length 1,2,63,64,253,254,255 and random with 1-3 table addresses) x ports {0,1,80,255,256,443,65535,random} issued through create_proxy_stream, the SOCKS5 front-end, HTTP CONNECT, a plain HTTP request (origin or absolute form, with header lines that merely look like a Host header placed before the real one), a UDP association (through the client, or by a raw TLS peer whose association request names an IPv4/IPv6 address or a host name and is spread over 1-6 PSH frames), or a raw TLS client that spreads the destination over 1-6 PSH frames, with virtual gaps {0,1s,59s,61s,150s} (inside and beyond the 60 s cache lifetime), default or tiny-size padding scheme; oracle = the simulated network's connect / datagram log after each request; every case is non-trivial; distinct = distinct (plan hash, poll-order fingerprint)"
     }
     fn real_components(&self) -> Vec<&'static str> {
         vec!["Client::create_proxy_stream / create_udp_proxy / session pool", "SOCKS5 front-end", "HTTP proxy front-end (CONNECT)", "Server::listen / handle_connection / TcpProxyHandler::handle_stream / read_socks_addr", "resolve_host_with_cache + DNS cache (virtual clock)", "udp_proxy::handle_udp_over_tcp / read_initial_request", "rustls both ways", "Session / Stream / codec / padding"]
@@ -380,4 +396,73 @@ async fn raw_request(host: &str, port: u16, pieces: usize, ri: usize, pause_ms: 
             _ => return Err("no echo through the raw session within 60 s".into()),
         }
     }
+}
+
+/// raw TLS client asking for a UDP association: valid preamble, Settings, SYN, the reserved destination, then the
+/// association request (isConnect | atyp | address | port) spread over `pieces` PSH frames, then one datagram
+async fn raw_udp_request(host: &str, port: u16, pieces: usize, ri: usize, pause_ms: u64) -> Result<(), String> {
+    use crate::refcodec as rc;
+    let connector = crate::fixtures::connector();
+    let tcp = TcpStream::connect(SERVER_ADDR).await.map_err(|e| e.to_string())?;
+    let mut tls = timeout(Duration::from_secs(60), connector.connect("localhost".try_into().unwrap(), tcp)).await.map_err(|_| "tls timeout".to_string())?.map_err(|e| e.to_string())?;
+    let mut bytes = Vec::new();
+    bytes.extend_from_slice(&crate::checks::c06::sha(PASSWORD));
+    bytes.extend_from_slice(&[0, 0]);
+    bytes.extend(rc::encode(rc::SETTINGS, 0, b"v=2\nclient=raw\npadding-md5=x"));
+    bytes.extend(rc::encode(rc::SYN, 1, b""));
+    bytes.extend(rc::encode(rc::PSH, 1, &socks_addr_bytes("sp.v2.udp-over-tcp.arpa", 0)));
+    let mut req = vec![1u8];
+    req.extend(socks_addr_bytes(host, port));
+    let pieces = std::cmp::max(1, std::cmp::min(pieces, req.len()));
+    let step = (req.len() + pieces - 1) / pieces;
+    let mut split_at: Option<usize> = None;
+    for (k, c) in req.chunks(step).enumerate() {
+        bytes.extend(rc::encode(rc::PSH, 1, c));
+        if k == 0 && pause_ms > 0 && pieces > 1 {
+            split_at = Some(bytes.len());
+        }
+        if k % 2 == 1 {
+            bytes.extend(rc::encode(rc::WASTE, 0, b"pad"));
+        }
+    }
+    let msg = format!("rawdgram-{}", ri);
+    let mut d = (msg.len() as u16).to_be_bytes().to_vec();
+    d.extend_from_slice(msg.as_bytes());
+    bytes.extend(rc::encode(rc::PSH, 1, &d));
+    if let Some(at) = split_at {
+        tls.write_all(&bytes[..at]).await.map_err(|e| e.to_string())?;
+        tls.flush().await.map_err(|e| e.to_string())?;
+        world::fault_fired("peer.long_silence_inside_destination");
+        sleep(Duration::from_millis(pause_ms)).await;
+        tls.write_all(&bytes[at..]).await.map_err(|e| e.to_string())?;
+    } else {
+        tls.write_all(&bytes).await.map_err(|e| e.to_string())?;
+    }
+    tls.flush().await.map_err(|e| e.to_string())?;
+    // the server acknowledges the association (empty SYNACK); a text would be a refusal
+    let mut acc = Vec::new();
+    let mut b = vec![0u8; 4096];
+    let deadline = tokio::time::Instant::now() + Duration::from_secs(60);
+    loop {
+        match tokio::time::timeout_at(deadline, tls.read(&mut b)).await {
+            Ok(Ok(n)) if n > 0 => {
+                acc.extend_from_slice(&b[..n]);
+                let (frames, _) = rc::parse_all(&acc);
+                if let Some(f) = frames.iter().find(|f| f.cmd == rc::SYNACK) {
+                    if !f.data.is_empty() {
+                        return Err(format!("server error: {}", String::from_utf8_lossy(&f.data)));
+                    }
+                    break;
+                }
+            }
+            _ => return Err("no answer to the association request within 60 s".into()),
+        }
+    }
+    // time for the name to resolve and the datagram to leave
+    sleep(Duration::from_secs(5)).await;
+    tokio::spawn(async move {
+        let _keep = tls;
+        std::future::pending::<()>().await;
+    });
+    Ok(())
 }
